@@ -9,10 +9,12 @@ import (
 	"hash/fnv"
 	"os"
 	"path/filepath"
+	"runtime"
 	"sort"
 	"strconv"
 	"strings"
 	"sync"
+	"time"
 )
 
 // Tier returns "quick" or "thorough".
@@ -298,4 +300,28 @@ func KnownSignature(prop, signature string) (string, bool) {
 		}
 	}
 	return "", false
+}
+
+// RealTimeGuard is for parts that run in real time (sockets): if the returned function has not been called after d the
+// case is wedged - in the harness or in the code under test, which cannot be told apart from here - so all goroutine
+// stacks go to stderr and the process exits 3, which the driver reports as inconclusive (never as a violation).
+func RealTimeGuard(d time.Duration, what string, c any) func() {
+	done := make(chan struct{})
+	go func() {
+		select {
+		case <-done:
+			return
+		case <-time.After(d):
+		}
+		js, _ := json.Marshal(c)
+		if len(js) > 4000 {
+			js = js[:4000]
+		}
+		buf := make([]byte, 1<<20)
+		buf = buf[:runtime.Stack(buf, true)]
+		fmt.Fprintf(os.Stderr, "INCONCLUSIVE: %s did not finish within %s of real time; case %s\n%s\n", what, d, js, buf)
+		os.Exit(3)
+	}()
+	var once sync.Once
+	return func() { once.Do(func() { close(done) }) }
 }
